@@ -5,6 +5,7 @@
 -/
 import Masscanned.Proofs.C10.HttpTbl
 import Masscanned.Model.Http
+import Masscanned.Proofs.Texts.Reply
 namespace Masscanned.C01
 open Masscanned Masscanned.C10
 
@@ -137,28 +138,24 @@ theorem httpParse_inv (ps : HttpSt) (d : Bytes) (h : HttpInv ps) :
 
 /-! ### the reply -/
 
-theorem httpReply_length (env : Env) : (httpReplyBytes env).length = 363 + env.httpDate.length := by
-  unfold httpReplyBytes
-  have a : "HTTP/1.1 401 Unauthorized\nServer: nginx/1.14.2\nDate: ".toUTF8.toList.length = 53 := by
-    decide +kernel
-  have b : ("\nContent-Type: text/html\nContent-Length: ".toUTF8.toList ++ natDec httpContent.length).length = 44 := by
-    decide +kernel
-  have c : "\nConnection: keep-alive\nWWW-Authenticate: Basic realm=\"Access to admin page\"\n\n".toUTF8.toList.length = 78 := by
-    decide +kernel
-  have e : httpContent.length = 188 := by decide +kernel
-  simp only [List.length_append] at b ⊢
-  omega
+/-- length of the response: the generated text (`Texts.httpFixedLen` bytes, date excluded) plus the date -/
+theorem httpReply_length (env : Env) :
+    (httpReplyBytes env).length = Texts.httpFixedLen + env.httpDate.length := Texts.httpReply_length env
+
+/-- the bound used by C01: the generated text has at most 2000 bytes (`Texts.httpFixed_le`) -/
+theorem httpReply_length_le (env : Env) : (httpReplyBytes env).length ≤ 2000 + env.httpDate.length :=
+  Texts.httpReply_length_le env
 
 theorem httpRepl_ok (env : Env) (ps : HttpSt) (d : Bytes) (h : HttpInv ps) :
     ∃ ps' r, httpRepl env ps d = .ok (ps', r) ∧ HttpInv ps' ∧
-      ∀ x, r = some x → x.length = 363 + env.httpDate.length := by
+      ∀ x, r = some x → x.length ≤ 2000 + env.httpDate.length := by
   obtain ⟨ps', h1, h2⟩ := httpParse_inv ps d h
   unfold httpRepl
   rw [h1]
   refine ⟨ps', _, rfl, h2, ?_⟩
   intro x hx
   split at hx
-  · cases hx; exact httpReply_length env
+  · cases hx; exact httpReply_length_le env
   · cases hx
 
 end Masscanned.C01
